@@ -72,8 +72,52 @@ func G8EdgeFact(from, to *ssa.BasicBlock) (G8Fact, bool) {
 	return G8Fact{}, false
 }
 
+// G8Lift extends an acceptance predicate to boolean phis used as branch conditions
+// (`ok := a && b; if ok`): the fact "phi == pol" is accepted when every incoming edge that can
+// yield pol carries an accepted fact (its value, the edge into the phi, or a guard of the
+// predecessor).
+func G8Lift(acc func(G8Fact) bool) func(G8Fact) bool {
+	var lifted func(f G8Fact, depth int) bool
+	lifted = func(f G8Fact, depth int) bool {
+		if acc(f) {
+			return true
+		}
+		if f.Nil || depth > 3 {
+			return false
+		}
+		ph, ok := f.V.(*ssa.Phi)
+		if !ok || !isBoolT(ph.Type()) {
+			return false
+		}
+		for i, e := range ph.Edges {
+			if c, isC := ConstBool(e); isC && c != f.Pol {
+				continue // this edge cannot produce the polarity
+			}
+			if _, isC := ConstBool(e); !isC && lifted(G8Norm(e, f.Pol), depth+1) {
+				continue
+			}
+			pred := ph.Block().Preds[i]
+			okEdge := false
+			if ef, has := G8EdgeFact(pred, ph.Block()); has && lifted(ef, depth+1) {
+				okEdge = true
+			}
+			for _, g := range Guards(pred) {
+				if !okEdge && lifted(G8Norm(g.Cond, g.Polarity), depth+1) {
+					okEdge = true
+				}
+			}
+			if !okEdge {
+				return false
+			}
+		}
+		return true
+	}
+	return func(f G8Fact) bool { return lifted(f, 0) }
+}
+
 // G8AcceptingEdges lists the CFG edges of fn whose fact is accepted by acc.
 func G8AcceptingEdges(fn *ssa.Function, acc func(G8Fact) bool) map[Edge]bool {
+	acc = G8Lift(acc)
 	out := map[Edge]bool{}
 	for _, b := range fn.Blocks {
 		for _, s := range b.Succs {
@@ -126,7 +170,7 @@ func (w G8Witness) Pos() token.Pos {
 // own fact is accepted, or every CFG path from the entry through the witness's phi edges to
 // the return takes an accepted edge.
 func (w G8Witness) Passes(acc func(G8Fact) bool) bool {
-	if w.LeafFact != nil && acc(*w.LeafFact) {
+	if w.LeafFact != nil && G8Lift(acc)(*w.LeafFact) {
 		return true
 	}
 	blocked := G8AcceptingEdges(w.Fn, acc)
